@@ -240,6 +240,7 @@ func (w *GenWorld) scheduleNext() {
 	w.opIdx++
 	w.K.At(w.K.Now()+ms+op.At.GapNS, fmt.Sprintf("op:%d:%s", op.ID, op.Kind), func() {
 		w.K.Stats.Op(op.Kind)
+		w.K.OpIssued(op.ID)
 		w.exec(op)
 		w.scheduleNext()
 	})
